@@ -1,2 +1,4 @@
 import InToto.Basic
 import InToto.Rulelib
+import InToto.Glob
+import InToto.Rules
